@@ -72,7 +72,7 @@ plan("C03", "exploration",
      "Generated: kernel / ec_encode_data_{base,sse,avx,avx2,avx512,avx2_gfni,avx512_gfni} / dispatcher under 12 simulated cpu levels (tables from the matching builder), "
      "k 1..255, rows 1..14, len 0..70000 (boundary-biased), per-buffer alignment 0..63 and flush placement, structured and uniform coefficients. "
      "Non-trivial: k>=2, a coefficient outside {0,1}, len >= kernel minimum.",
-     lambda tier: [S("C03", 160000 if tier == "quick" else 2000000)],
+     lambda tier: [S("C03", 150000), S("C03", 10000, cfg="gflarge")] if tier == "quick" else [S("C03", 2000000), S("C03", 200000, cfg="gflarge")],
      assumptions=["reference: carry-less multiply mod 0x11D", "direct per-ISA kernels are never called below their documented minimum length or with k == 0",
                   "dispatched gf_vect_dot_prod is paired with ec_init_tables_base (32-byte tables), ec_encode_data with the dispatched ec_init_tables"])
 
@@ -81,7 +81,7 @@ plan("C13", "exploration",
      "len to 70000, alignment), ec_encode_data_update_{base,sse,avx,avx2,avx512,avx2_gfni,avx512_gfni} and the dispatcher under 12 cpu levels driven as a state machine "
      "(generated permutation of update order, cancelling double applications, model compared after every step), dispatched gf_vect_mad, gf_vect_mul_{base,sse,avx}+dispatcher. "
      "Non-trivial: k>=2, rows>=2, non-identity order.",
-     lambda tier: [S("C13", 300000 if tier == "quick" else 3500000)],
+     lambda tier: [S("C13", 280000), S("C13", 20000, cfg="gflarge")] if tier == "quick" else [S("C13", 3500000), S("C13", 300000, cfg="gflarge")],
      assumptions=["reference: carry-less multiply mod 0x11D", "direct kernels are not called below their documented minimum length",
                   "gf_vect_mul: len multiple of 32 and 32-byte aligned buffers as documented"])
 
@@ -96,7 +96,7 @@ plan("C09", "exploration",
      "gf_invert_matrix on generated n x n matrices (n<=128; random, rank-deficient by construction, zero-pivot shapes) against reference rank and product; generator formulas for all (m,k), "
      "m<=20 (thorough 40) exhaustively plus sampled up to 256; minor enumeration over the documented safe table of gf_gen_rs_matrix and Cauchy families (complete in both tiers); "
      "all erasure patterns for m<=15 (thorough 16); end-to-end encode/erase/invert/recover with generated patterns. Non-trivial: n>=4 or >=2 erasures.",
-     lambda tier: [S("C09", 120000 if tier == "quick" else 1500000)],
+     lambda tier: [S("C09", 110000), S("C09", 10000, cfg="gflarge")] if tier == "quick" else [S("C09", 1500000), S("C09", 150000, cfg="gflarge")],
      assumptions=["reference rank/product from carry-less GF(2^8)/0x11D arithmetic",
                   "a k x k survivor matrix of [I;P] is regular iff the minor (erased data columns x chosen parity rows) of P is regular",
                   "documented RS exponent convention is parsed from include/erasure_code.h"])
@@ -132,21 +132,21 @@ plan("C02", "exploration",
 plan("C10", "exploration",
      "One-shot: inputs biased to incompressible/empty (0..70, 65530..65540, 131065..131075, up to 300 KiB) x level x wrapper x flush x avail_out around 0 / compressed size / bound, every value 0..bound+16 "
      "for small inputs; streaming: tiny output buffer sequences with end_of_stream; invalid parameters. Output chunks end at guard pages. Non-trivial: avail_out within 16 of the bound or compressed size, or a buffer < 8 bytes.",
-     lambda tier: [S("C10", 40000 if tier == "quick" else 500000)],
+     lambda tier: [S("C10", 36000), S("C10", 3000, cfg="hist8k"), S("C10", 2000, cfg="longhuff")] if tier == "quick" else [S("C10", 500000), S("C10", 50000, cfg="hist8k"), S("C10", 30000, cfg="longhuff")],
      assumptions=["bound = len + 5*max(1,ceil(len/65535)) + (10,8) gzip / (0,8) gzip-no-hdr / (2,4) zlib / (0,4) zlib-no-hdr / 0 raw as stated by the property",
                   "either ISAL_INVALID_LEVEL or ISAL_INVALID_LEVEL_BUF is accepted for a missing/undersized level buffer"])
 
 plan("C14", "exploration",
      "Generated histories: 1-5 feed steps each followed by a NO/SYNC/FULL flush request, drained through generated output chunkings (down to 1-byte buffers), x level x wrapper x hist_bits x cpu level; "
      "segments after a flush copy content from before it. Plus sequences of one-shot raw-deflate FULL_FLUSH calls. Non-trivial: a completed flush followed by >= 64 bytes repeating pre-flush content.",
-     lambda tier: [S("C14", 80000 if tier == "quick" else 1000000)],
+     lambda tier: [S("C14", 70000), S("C14", 6000, cfg="hist8k")] if tier == "quick" else [S("C14", 1000000), S("C14", 100000, cfg="hist8k"), S("C14", 60000, cfg="longhuff")],
      assumptions=["flush-point clauses are asserted only under the property's precondition (all input consumed, output space left)"])
 
 plan("C11", "fault_enumeration",
      "Producer: generated inputs/levels/wrappers/chunkings, trailer compared with zlib crc32/adler32. Verifier: small wrapped streams from three encoders x 4 verifying modes x chunkings x kernels with "
      "EVERY single-bit flip, EVERY truncation and a byte substitution at every offset (header, body, trailer); larger streams with a call boundary on every trailer byte and sampled corruptions. "
      "Non-trivial: a corruption that changes the delivered bytes or the trailer.",
-     lambda tier: [S("C11", 2800 if tier == "quick" else 35000)],
+     lambda tier: [S("C11", 2800), S("C11", 200, cfg="hist8k")] if tier == "quick" else [S("C11", 35000), S("C11", 3000, cfg="hist8k")],
      assumptions=["success after a benign header flip (MTIME/XFL/OS) is correct: the oracle compares the delivered bytes with the trailer actually present",
                   "the position of the trailer in a corrupted stream comes from the lenient RFC 1951 reference decoder"])
 
@@ -154,7 +154,7 @@ plan("C07", "exploration",
      "Systematic: for small inputs/streams every single split point of the input and of the output, and all pairs of (input chunk, output chunk) sizes from {0,1,2,7,8,9,15,16,17,31,32,33,255,256,257,328,329,big}; "
      "generated histories (refill-before-drain, zero-length buffers, per-call flush changes, late end_of_stream, fresh mapping per chunk) for compression and decompression (valid and corrupted streams), "
      "x levels x wrappers (gzip with FEXTRA/FNAME/FCOMMENT/FHCRC) x cpu levels. Oracle: decode == concatenated input; streaming inflate == one-shot inflate. Non-trivial: >= 3 calls with a boundary inside the data.",
-     lambda tier: [S("C07", 3200 if tier == "quick" else 40000)],
+     lambda tier: [S("C07", 10000), S("C07", 1000, cfg="hist8k")] if tier == "quick" else [S("C07", 150000), S("C07", 15000, cfg="hist8k"), S("C07", 8000, cfg="longhuff")],
      assumptions=["after end_of_stream no more input is supplied", "compressed bytes may differ between schedules: only decoded data is compared"])
 
 plan("C06", "fault_enumeration",
@@ -178,14 +178,14 @@ plan("C18", "exploration",
      "isal_update_histogram_{base,01,04} and the dispatcher) through both builders: Kraft-complete codes <= 15 bits, bit-buffer bound, stored header re-parsed by the reference decoder; level-0 compression "
      "round trips with the table (any data / data from the support) under all APIs and flush modes; set_hufftables refused mid-block. Thorough adds the LONGER_HUFFTABLE build. Non-trivial: depth-limited "
      "or tiny-support histogram, or a round trip with a match.",
-     lambda tier: [S("C18", 100000), S("C18", 10000, cfg="longhuff")] if tier == "quick" else [S("C18", 1200000), S("C18", 150000, cfg="longhuff")],
+     lambda tier: [S("C18", 90000), S("C18", 8000, cfg="longhuff"), S("C18", 8000, cfg="hist8k")] if tier == "quick" else [S("C18", 1200000), S("C18", 150000, cfg="longhuff"), S("C18", 150000, cfg="hist8k")],
      assumptions=["subset builder: only byte values with a non-zero literal count are compressed", "collected histograms are used as inputs; their exact counts are not prescribed (collectors use different match finders)"])
 
 plan("C17", "exploration",
      "Window: hist_bits w (9..15, plus 1..8 for the round trip) with repeats placed exactly at 2^w+-3, 32768+-3 and 65536+-3 x level x flush x API x cpu level; dictionaries of 1..70000 bytes with data "
      "copied from the dictionary tail, head and middle, set directly and via process_dict/reset_dict, decoded by the reference decoder, zlib and ISA-L primed with the same dictionary; wrong-state calls. "
      "Thorough adds the 8 KiB-window and LONGER_HUFFTABLE builds. Non-trivial: match distance > 2^(w-1) or a match into the dictionary.",
-     lambda tier: [S("C17", 16000), S("C17", 2000, cfg="hist8k")] if tier == "quick" else [S("C17", 200000), S("C17", 30000, cfg="hist8k"), S("C17", 30000, cfg="longhuff")],
+     lambda tier: [S("C17", 15000), S("C17", 2000, cfg="hist8k"), S("C17", 1500, cfg="longhuff")] if tier == "quick" else [S("C17", 200000), S("C17", 30000, cfg="hist8k"), S("C17", 30000, cfg="longhuff")],
      assumptions=["dictionaries are installed at stream start", "byte equality set_dict == tail-only == process/reset is sound because both paths hash the same bytes with the same mask at total_in == 0",
                   "struct isal_dict is zeroed before isal_deflate_process_dict, as the in-tree callers do"])
 
@@ -193,7 +193,7 @@ plan("C05", "exploration",
      "Every data-plane symbol (CRC/Adler, zero-detect, EC, RAID: direct per-ISA kernels and dispatchers under 12 cpu levels) x lengths {0, 1, every vector-width remainder, around a page, random} x both guard "
      "placements; igzip one-shot and auxiliary entry points with exact-size mappings; streaming compression and decompression histories with one mapping per chunk that is unmapped the moment the call returns "
      "and relocation of unconsumed input, whose results must still be correct. Faults are converted to failures. Non-trivial: a vector tail (len not multiple of 64) or a history with >= 2 calls.",
-     lambda tier: [S("C05", 60000 if tier == "quick" else 800000)],
+     lambda tier: [S("C05", 54000), S("C05", 4000, cfg="hist8k")] if tier == "quick" else [S("C05", 800000), S("C05", 60000, cfg="hist8k"), S("C05", 40000, cfg="longhuff")],
      assumptions=["direct kernels are not called below their documented minimum length or with misaligned RAID buffers", "relocating unconsumed input between calls is legal (the codec recomputes its base from next_in - total_in)",
                   "level_buf is 16-byte aligned as any malloc'ed buffer"])
 
